@@ -30,6 +30,18 @@ def check(model: Model, run: Run) -> None:
                        "reader of its own kind, so presence and absence decode alike; (4) trailing unknown elements - in every SEQUENCE reader everything after the "
                        "mandatory components is tag-dispatched and unknown tags are skipped, nothing rejects leftover data. NOT decided: that values decoded under "
                        "alternative forms are equal (arithmetic of multi-octet lengths)")
+    # ---- leaving a reader never rejects what was left unread (trailing elements are the sender's freedom) -------------------
+    rdc = model.classes.get(f"{ASN1}.ASN1Reader")
+    for hook in ("__exit__", "__del__", "close"):
+        hm = rdc.methods.get(hook) if rdc is not None else None
+        if hm is None or isinstance(hm.node, ast.Lambda):
+            continue
+        raises = [r_ for r_ in walk_no_nested(hm.node) if isinstance(r_, ast.Raise) and r_.exc is not None]
+        run.ob("V11-leaving-a-reader-rejects-nothing", not raises, {"method": f"ASN1Reader.{hook}"})
+        if raises:
+            run.fail(Finding("V11-leaving-a-reader-rejects-nothing", hm.qualname, norm(raises[0])[:80],
+                             f"ASN1Reader.{hook} raises (`{norm(raises[0])[:60]}`): a decoder that reads a SEQUENCE inside `with reader.read_sequence() as r:` now refuses every "
+                             "element it did not read - the trailing elements a sender is free to add", model.loc(hm.module, raises[0])))
     # ---- (1) length form ----------------------------------------------------------------
     from ..anchors import asn1 as asn1_anchors
     an = asn1_anchors(model)
